@@ -44,9 +44,25 @@ type rec1415 struct {
 	V   string
 }
 
+// zeroBase1415: the timestamps of the running case count from Go's zero instant (0001-01-01T00:00:00Z, the zero value of
+// time.Time) instead of the Unix epoch (`dsz` / `adz` cases of C15: a series may legitimately begin there). The zero instant
+// is a whole number of days before the epoch, so fixed periods dividing a day fall on the same offsets.
+var zeroBase1415 bool
+
 func (r rec1415) Time() time.Time {
 	l := locs1415[r.Loc%len(locs1415)]
+	if zeroBase1415 {
+		return time.Time{}.Add(time.Duration(r.T)).In(l)
+	}
 	return time.Unix(0, r.T).In(l)
+}
+
+// nanos1415: the instant as the case counts it
+func nanos1415(t time.Time) int64 {
+	if zeroBase1415 {
+		return int64(t.Sub(time.Time{}))
+	}
+	return t.UnixNano()
 }
 
 func parseRecs1415(s string) ([]rec1415, error) {
